@@ -70,8 +70,8 @@ def protect(keys: Keys, header_wo_pn: bytes, pn: int, pn_len: int, payload: byte
     return bytes(hdr) + ct
 
 
-def long_packet(keys, ptype, dcid, scid, pn, pn_len, payload, token=None, len_vl=2):
-    first = 0xC0 | (ptype << 4) | (pn_len - 1)
+def long_packet(keys, ptype, dcid, scid, pn, pn_len, payload, token=None, len_vl=2, fixed=1):
+    first = 0x80 | (fixed << 6) | (ptype << 4) | (pn_len - 1)
     h = bytes([first]) + b"\x00\x00\x00\x01" + bytes([len(dcid)]) + dcid + bytes([len(scid)]) + scid
     if ptype == 0:
         h += varint(len(token or b"")) + (token or b"")
@@ -79,8 +79,8 @@ def long_packet(keys, ptype, dcid, scid, pn, pn_len, payload, token=None, len_vl
     return protect(keys, h, pn, pn_len, payload, True)
 
 
-def short_packet(keys, dcid, pn, pn_len, payload, key_phase=0, spin=0):
-    first = 0x40 | (spin << 5) | (key_phase << 2) | (pn_len - 1)
+def short_packet(keys, dcid, pn, pn_len, payload, key_phase=0, spin=0, fixed=1):
+    first = (fixed << 6) | (spin << 5) | (key_phase << 2) | (pn_len - 1)
     return protect(keys, bytes([first]) + dcid, pn, pn_len, payload, False)
 
 
@@ -124,6 +124,7 @@ class QSpec:
     pn_gap: int = 0
     new_cid_at: int = -1          # before app entry i the server issues NEW_CONNECTION_ID and the client switches to it
     new_cid_len: int = -1         # -1: same length as the server's CID
+    new_cid_prefix: str = ""      # "" | "extend" (new CID = old CID + more bytes) | "truncate" (new CID = a proper prefix of the old one)
     client_new_cid_at: int = -1   # same, issued by the client, server switches
     token: bytes = b""
     varint_policy: object = "min"
@@ -133,6 +134,7 @@ class QSpec:
     len_vl: int = 2               # width of the long-header Length varint
     early_secret_line: bool = True
     nst: int = 0                  # NewSessionTicket messages in 1-RTT CRYPTO frames
+    grease: float = 0.0           # probability per packet of clearing the QUIC fixed bit (RFC 9287); such captures need the -g option
 
 
 @dataclass
@@ -262,13 +264,13 @@ def build_qconn(spec: QSpec, rng) -> QConn:
         if pad_to and len(pay) < pad_to:
             truths.append({"kind": "PADDING", "n": pad_to - len(pay)})
             pay += bytes(pad_to - len(pay))
-        pkt = long_packet(keys, ptype, dcid, scid, n, ln, pay, token=token, len_vl=spec.len_vl)
+        pkt = long_packet(keys, ptype, dcid, scid, n, ln, pay, token=token, len_vl=spec.len_vl, fixed=0 if rng.random() < spec.grease else 1)
         return pkt, PktInfo(space, n, ln, truths), sdata, meta
 
     def mk_short(keys, d, dcid, frames_spec, phase):
         n, ln = pn(d, "app")
         pay, truths, sdata, meta = build_payload(frames_spec, w, max(4 - ln, 0))
-        pkt = short_packet(keys, dcid, n, ln, pay, key_phase=phase, spin=rng.randrange(2))
+        pkt = short_packet(keys, dcid, n, ln, pay, key_phase=phase, spin=rng.randrange(2), fixed=0 if rng.random() < spec.grease else 1)
         return pkt, PktInfo("app", n, ln, truths, phase, False), sdata, meta
 
     def emit(d, parts, tail=b""):
@@ -356,12 +358,20 @@ def build_qconn(spec: QSpec, rng) -> QConn:
         o = "s" if d == "c" else "c"
         if idx == spec.new_cid_at:
             new = rb(len(s_scid) if spec.new_cid_len < 0 else spec.new_cid_len) or rb(8)
+            if spec.new_cid_prefix == "extend" and len(s_scid) < 20:
+                new = s_scid + rb(rng.randrange(1, 21 - len(s_scid)))
+            elif spec.new_cid_prefix == "truncate" and len(s_scid) > 1:
+                new = s_scid[:rng.randrange(1, len(s_scid))]
             emit("s", [mk_short(cur["s"], "s", c_dcid_used_by_server, [("raw",) + qf.new_connection_id(w, 1, 0, new, rb(16))], phase["s"])])
             sent_in_phase["s"] = True
             s_dcid_used_by_client = new
             info["new_server_cid"] = new
         if idx == spec.client_new_cid_at:
             new = rb(len(c_scid) if c_scid else 8)
+            if spec.new_cid_prefix == "extend" and len(c_scid) < 20:
+                new = c_scid + rb(rng.randrange(1, 21 - len(c_scid)))
+            elif spec.new_cid_prefix == "truncate" and len(c_scid) > 1:
+                new = c_scid[:rng.randrange(1, len(c_scid))]
             emit("c", [mk_short(cur["c"], "c", s_dcid_used_by_client, [("raw",) + qf.new_connection_id(w, 1, 0, new, rb(16))], phase["c"])])
             sent_in_phase["c"] = True
             c_dcid_used_by_server = new
@@ -481,6 +491,8 @@ def random_qspec(rng, napp=None, avoid=()):
         s.new_cid_at = rng.randrange(n)
     if rng.random() < 0.15 and n and s.c_scid_len:
         s.client_new_cid_at = rng.randrange(n)
+    if (s.new_cid_at >= 0 or s.client_new_cid_at >= 0) and rng.random() < 0.4:
+        s.new_cid_prefix = rng.choice(["extend", "truncate"])
     chlen = 260   # approximate; cuts beyond the end are ignored
     if rng.random() < 0.5:
         k = rng.randrange(1, 6)
